@@ -319,10 +319,10 @@ func (p *phaser) alignAgainstRefsAA(seq Sequence, orfsaa []Sequence) (ph PhasedS
 		Removed:  false,
 		Position: beststart,
 		NtSeq: NewSequence(bestseq.Name(),
-			bestseq.SequenceChar()[beststart:bestend],
+			append([]uint8{}, bestseq.SequenceChar()[beststart:bestend]...),
 			bestseq.Comment()),
 		CodonSeq: NewSequence(bestseq.Name(),
-			bestseq.SequenceChar()[beststart:bestend],
+			append([]uint8{}, bestseq.SequenceChar()[beststart:bestend]...),
 			bestseq.Comment()),
 		AaSeq: NewSequence(bestseqaa.Name(),
 			bestseqaa.SequenceChar()[beststartaa:bestendaa],
@@ -412,7 +412,7 @@ func (p *phaser) alignAgainstRefsNT(seq Sequence, orfs []Sequence) (ph PhasedSeq
 		Removed:  false,
 		Position: beststart,
 		NtSeq: NewSequence(bestseq.Name(),
-			bestseq.SequenceChar()[beststart:bestend],
+			append([]uint8{}, bestseq.SequenceChar()[beststart:bestend]...),
 			bestseq.Comment()),
 		// For two next sequences we take into account the right phase
 		// (taking into account initial gaps)
@@ -422,7 +422,7 @@ func (p *phaser) alignAgainstRefsNT(seq Sequence, orfs []Sequence) (ph PhasedSeq
 		// --N NNN NNN => phase 1
 		// --- NNN NNN => phase 0
 		CodonSeq: NewSequence(bestseq.Name(),
-			bestseq.SequenceChar()[beststart+phase:bestend],
+			append([]uint8{}, bestseq.SequenceChar()[beststart+phase:bestend]...),
 			bestseq.Comment()),
 		AaSeq: NewSequence(bestseq.Name(),
 			bestseq.SequenceChar()[beststart+phase:bestend],
